@@ -75,6 +75,7 @@ Spec == Init /\ [][Next]_vars
 \* acceptance: the highest trace position reached by any explored state (silent Lin steps exist,
 \* so the search depth is not the trace length); needs -workers 1
 HighWater == TLCSet(1, IF TLCGet(1) > l THEN TLCGet(1) ELSE l)
-Accepted == TLCGet(1) = Len(Trace) + 1
+Accepted == \/ TLCGet(1) = Len(Trace) + 1
+            \/ (PrintT(ToJson([highwater |-> TLCGet(1)])) /\ FALSE)
 ASSUME TLCSet(1, 0)
 =============================================================================
